@@ -76,7 +76,9 @@ def harness_specs(tier):
             # asserts on: a fold over no element must not trip anything (repaired defect reduce.empty-fold)
             dict(name='h_c08r_dbg', src='h_c08r.cpp', flavour='dbg'),
             # narrow element types with a wider result dtype: the fold is carried out in the dtype
-            dict(name='h_c08e', src='h_c08e.cpp', flavour='fast')]
+            dict(name='h_c08e', src='h_c08e.cpp', flavour='fast'),
+            # mean / var / stddev with an explicit result dtype (every intermediate is carried in it)
+            dict(name='h_c08v', src='h_c08v.cpp', flavour='fast')]
 
 
 # ------------------------------------------------------------------------------------------------
@@ -798,9 +800,55 @@ def gen_narrow(tier, rng):
                                        tags=['narrow-element-type', 'fn=' + fn, 'et=' + et, 'dtype=' + dt])
 
 
+def gen_var_dtype(tier, rng):
+    """mean / var / stddev with dtype=float64 on int32 and float32 sources whose values sit near 2^24: the float32 mean (the
+    promotion these routines use when no dtype is given) is inexact there, so a float32 intermediate anywhere shows as an
+    error of order 1 in the variance; NumPy with dtype=float64 is the reference"""
+    R, E = (3, 3) if tier == 'quick' else (3, 4)
+    k = 0
+    for s in shapes(R, E, min_rank=1):
+        nd, n = len(s), prod(s)
+        if n < 2:
+            continue
+        for et in ('i32', 'f32'):
+            if et == 'i32':
+                data = [16777216 + rng.choice([1, 3, 5, 7, 9, -3, -7, 11, 13]) + 2 * rng.randint(-3, 3) * (j % 2) for j in range(n)]
+                a = np.array(data, dtype=np.int32).reshape(s)
+            else:
+                data = [16777216 + 2 * rng.randint(-40, 40) for j in range(n)]       # even: exact in float32
+                a = np.array(data, dtype=np.float32).reshape(s)
+            for sub in list(subsets(nd)) + [None]:
+                k += 1
+                if tier == 'quick' and nd == 3 and k % 2:
+                    continue
+                if sub is None:
+                    axes, count = None, n
+                else:
+                    axes = [x - nd if rng.random() < 0.4 else x for x in sub]
+                    count = prod([s[x] for x in sub])
+                if count < 2:
+                    continue
+                ax = None if axes is None else tuple(axes)
+                axs = 'None' if axes is None else fmt(axes)
+                for keep in (0, 1):
+                    api = 'view' if (k + keep) % 2 else 'array'
+                    axk = 'int' if (axes is not None and len(axes) == 1 and rng.random() < 0.5) else 'vec'
+                    base = 'api=%s et=%s dtype=f64 shape=%s axis=%s ax=%s keepdims=%d' % (api, et, fmt(s), axs, axk, keep)
+                    tol = close_cmp(1e-7, 1e-6)
+                    tg = ['explicit-dtype', 'api=' + api, 'et=' + et, 'rank=%d' % nd, 'keepdims=%d' % keep]
+                    yield Case('vardt op=mean %s data=%s' % (base, fmt(data)), 'h_c08v', model=False, cmp=tol, tags=['mean'] + tg,
+                               oracle=fans(np.mean(a, axis=ax, dtype=np.float64, keepdims=bool(keep))))
+                    for ddof in (0, 1):
+                        yield Case('vardt op=var %s ddof=%d data=%s' % (base, ddof, fmt(data)), 'h_c08v', model=False, cmp=tol, tags=['var'] + tg,
+                                   oracle=fans(np.var(a, axis=ax, dtype=np.float64, ddof=ddof, keepdims=bool(keep))))
+                        yield Case('vardt op=stddev %s ddof=%d data=%s' % (base, ddof, fmt(data)), 'h_c08v', model=False, cmp=tol, tags=['stddev'] + tg,
+                                   oracle=fans(np.std(a, axis=ax, dtype=np.float64, ddof=ddof, keepdims=bool(keep))))
+
+
 def gen(tier, rng):
     yield from gen_witnesses()
     yield from gen_narrow(tier, rng)
+    yield from gen_var_dtype(tier, rng)
     k = 0
     for c in _gen_f31(tier, rng):
         yield c
